@@ -47,7 +47,8 @@ def brew_cases(ctx, rng):
                       "label_enc": ["1/-1", "1/0", "bool"][(j // 24) % 3], "override": bool((j // 72) % 4 == 3),
                       "lower_better": lower_better, "max_iter": 1 + j % 2, "prior": "flip" if j % 5 == 2 else None,
                       # the discriminating feature stored as whole numbers (int64 column), next to a float column without information
-                      "int_feats": bool(j % 3 == 1)})
+                      # (every second time as large whole numbers, 2**40 + value, with a learner that does not score by that column)
+                      "int_feats": ("big" if j % 6 == 1 else True) if j % 3 == 1 else False})
         if j % 8 == 7:      # a second collection
             rows2 = rows_from_shape(spec_of[: n // 2], rng, id0=1000)
             for r in rows2:
